@@ -43,6 +43,9 @@ def world(name):
         # the output folder holds a COMPLETE earlier run made with other options and --keep_tmp (its saved assignments and lock files are
         # there); the run that is interrupted and resumed is a fresh start (--force) with default options in that folder
         extra = ["STALE"]
+    if name == "w13":
+        # the stale-folder world with read groups from a table: the earlier run split ANOTHER table (other group names)
+        extra = ["STALE", "--read_group", "file:TABLE"]
     if name == "w12":
         # a run restarted from the saved assignments of a --keep_tmp run (--read_assignments); next to those saves lie the traces of
         # ANOTHER restart from them that was killed right after it had finished its first chromosome
@@ -67,6 +70,11 @@ def build_template(name, d):
                     g = r["name"].split("_")[-1]
                     f.write("%s\t%s\n" % (r["name"], " " + g if g == "gA" else g))
         extra = [x if x != "file:TABLE" else "file:" + tbl for x in extra]
+        if "STALE" in extra:
+            with open(os.path.join(d, "groups_old.tsv"), "w") as f:
+                for r in w["reads"]:
+                    if not r.get("unmapped"):
+                        f.write("%s\told%d\n" % (r["name"], len(r["name"]) % 2))
     if "YAML2" in extra:
         # experiment E1 = reads of chr1, E2 = reads of chr2 + the unmapped ones
         seqs = syn.genome_sequences(w)
@@ -156,8 +164,9 @@ def argv_for(d, extra, threads=1):
 
 def earlier_argv(d, extra):
     """the complete earlier run of the stale-folder world: other reads, other options, intermediate files kept"""
-    a = argv_for(d, [x for x in extra if x != "STALE"] + ["--keep_tmp", "--transcript_quantification", "all", "--gene_quantification", "all",
-                                                          "--read_group", "read_id:_"])
+    a = argv_for(d, [x for x in extra if x != "STALE"] + ["--keep_tmp", "--transcript_quantification", "all", "--gene_quantification", "all"] +
+                 ([] if "--read_group" in extra else ["--read_group", "read_id:_"]))
+    a = [x.replace("groups.tsv", "groups_old.tsv") if x.startswith("file:") else x for x in a]
     sub = {os.path.join(d, "reads.bam"): os.path.join(d, "reads_a.bam"), os.path.join(d, "annot.gtf"): os.path.join(d, "alt", "annot.gtf")}
     if "ALTREF" in extra:
         sub[os.path.join(d, "ref.fa.gz")] = os.path.join(d, "alt", "ref.fa.gz")
@@ -411,7 +420,7 @@ def signature(status, detail):
 
 def run(ctx):
     quick = ctx.tier == "quick"
-    worlds_ = ["w1", "w2", "w3", "w7", "w10", "w11", "w12"] if quick else ["w1", "w2", "w3", "w4", "w5", "w6", "w7", "w8", "w9", "w10", "w11", "w12"]
+    worlds_ = ["w1", "w2", "w3", "w7", "w10", "w11", "w12", "w13"] if quick else ["w1", "w2", "w3", "w4", "w5", "w6", "w7", "w8", "w9", "w10", "w11", "w12", "w13"]
     if os.environ.get("VERIF_C07_WORLDS"):
         worlds_ = os.environ["VERIF_C07_WORLDS"].split(",")      # development aid: restrict the worlds
     total = 0
@@ -436,7 +445,7 @@ def run(ctx):
                     continue        # quick tier: the --keep_tmp world only in the phases where keeping intermediate files matters
                 if quick and wname == "w7" and (variant == "before" or i % 6):
                     continue        # quick tier: the two-experiment world at every sixth mutation point
-                if wname in ("w10", "w11") and (variant == "before" or (quick and i > 16)):
+                if wname in ("w10", "w11", "w13") and (variant == "before" or (quick and i > 16)):
                     continue        # the stale-folder world: the window is the start of the run (until the old state is cleaned)
                 jobs.append((wname, [(i, variant)], None, ctx.scratch, wid, t0, chroms))
                 wid += 1
